@@ -2,6 +2,24 @@
 NOT_APPLICABLE = {}
 
 TEXTS = {
+    'C01': dict(
+        text="Generated-input search against an exact reference model: values are built from the mapping under test (bin edges +-4 ulps, range ends, powers of two, sub-minimum magnitudes, both signs, duplicates) over all 3 mapping kinds x alpha in [1e-6,0.99] x 3x3 non-collapsing store kinds, added one at a time; every answer is compared with the exact order statistics at floor/ceil of the exact rational rank q*(n-1) under the configured alpha plus a derived floating-point slack; q=0/q=1 must be bit-identical to the extreme bin's representative. Exploration is the right level: a for-all over inputs/configurations with an executable oracle.",
+        design_ref="DESIGN.md §2 C01, §1.1",
+        note="Trusted: the mapping's Index() for locating bins in the non-triviality rule only (accuracy is judged on values), big.Rat arithmetic. Index window of dense/paginated sketches capped at 2^14 bins by memory. Sampling: a violation confined to one specific (alpha, bin) away from edges could be missed.",
+        technique="property-based testing (rapid) against an exact sorted-multiset model with exact rational ranks",
+    ),
+    'C04': dict(
+        text="Model-based stateful property testing: one rapid state machine per non-collapsing store kind generates histories over Add/AddWithCount/AddBin/bursts/MergeWith(any of 5 kinds)/Copy/Clear/Reweight/Encode+Decode/ToProto+MergeWithProto and compares, after every step, the complete public observation (emptiness, total, min/max index, ForEach, Bins(), KeyAtRank at every cumulative boundary +- half a quantum) bit-for-bit with the mathematical index->weight map; dyadic bounded weights make every float sum exact so no tolerance is needed. The layout hook counts structural events (array shift/grow, page creation, left extension, compaction) so that evidence shows they were exercised.",
+        design_ref="DESIGN.md §2 C04, §1.1",
+        note="Trusted: model.Map (a Go map with sorted iteration), the exactness budget. Index spans capped per store kind by memory (dense 2^14..2^18, paginated 2^18, sparse 2^30). Sampling of histories up to ~120 steps.",
+        technique="stateful model-based property testing (rapid state machine) against an exact map model",
+    ),
+    'C05': dict(
+        text="Model-based stateful property testing on both collapsing stores with N from 1 to 2048: after every step the observation must equal fold(M,N) of the exact unfolded content, with bins <= N, span <= N, total conserved and (hook) allocated length <= N; merge arguments of all kinds and independent bin limits, including wide same-kind arguments into empty/cleared receivers (the shape of repaired finding F1). A sketch-level generator checks alpha-accuracy of every quantile whose floor/ceil order statistics lie in retained bins.",
+        design_ref="DESIGN.md §2 C05",
+        note="Trusted: the fold model (history independence of folding is itself exercised: any dependence shows up as a mismatch). Sketch-level clause asserts accuracy only when both candidate order statistics are retained.",
+        technique="stateful model-based property testing (rapid state machine) against fold(exact map, N); generated sketch-level accuracy cases",
+    ),
     'C18': dict(
         text="Generated-input search: seeded rapid generators of uint64/int64/float64 values (bit-length classes, 2^k+-d, non-finite, subnormal, +1-rounding) and random byte strings, checked against an independent reference codec written from the format documentation (byte-for-byte encodings, sizes, exact consumption with trailing bytes, EOF on every strict prefix without consuming), plus complete enumeration of all byte strings of length <= 2 per decoder and all 256 flags; thorough adds a coverage-guided native fuzz campaign. Exploration is the right level: the property is a for-all over bit patterns with an executable differential oracle.",
         design_ref="DESIGN.md §2 C18",
